@@ -564,6 +564,13 @@ pub fn k_efi_iter_provided_methods() {
     let mut it = tag.memory_areas();
     assert!(it.nth(k + 1).is_none());
     assert!(it.len() == 0 && it.next().is_none());
+    // a clone taken after one step continues the SAME walk (same remaining length, same next item)
+    let mut it2 = tag.memory_areas();
+    let _ = it2.next();
+    let mut c = it2.clone();
+    assert!(c.len() == it2.len());
+    let (x, y) = (c.next().map(|d| core::ptr::addr_of!(*d) as usize), it2.next().map(|d| core::ptr::addr_of!(*d) as usize));
+    assert!(x == y);
     kani::cover!(k == 3 && n == 3);
 }
 
